@@ -281,6 +281,41 @@ def ensure_replay():
         sys.stderr.write(r.stderr[-3000:]); raise Inconclusive('replay crate does not build against the current tree')
     _REPLAY = os.path.join(tgt, 'release', 'replay'); return _REPLAY
 
+# native cross-check run once per check on every tree: the same oracles (written from the property text) applied to concrete runs of the real code.
+# It validates the oracles/specifications the symbolic obligations are stated against, and is counted as traces_validated_against_impl.
+BATTERIES = {
+ 'C01': [dict(sign=[1, 1, 1, 1, 1, 1], dof=6, part='A', search='true'), dict(sign=[-1, 1, -1, -1, 1, -1], off=[0.1, -0.2, 0.3, 0.0, 0.25, -0.4], dof=6, part='B', search='true', prop='C01')],
+ 'C02': [dict(sign=[1, 1, 1, 1, 1, 1]), dict(sign=[-1, 1, -1, -1, 1, -1], off=[0.1, -0.2, 0.3, 0.0, 0.25, -0.4])],
+ 'C03': [dict(params=[0.15, -0.11, 0.05, 0.55, 0.61, 0.66, 0.12], off=[0.1, -0.2, 0.3, 0.0, 0.25, -0.4], sign=[-1, 1, -1, -1, 1, -1], joints=[0.3, 14.4, -0.5, 0.6, -27.7, -0.8])],
+ 'C04': [dict(sign=[1, 1, 1, 1, 1, 1], dof=6, search='true')],
+ 'C05': [dict(sign=[1, 1, 1, 1, 1, 1], search='true'), dict(sign=[1, 1, 1, 1, -1, 1], off=[0.0, 0.0, 0.0, 0.0, 0.4, 0.0], search='true')],
+ 'C06': [dict(sign=[1, 1, 1, 1, 1, 1], dof=5, search='true'), dict(sign=[1, 1, 1, 1, 1, 1], dof=6, search='true')],
+ 'C07': [dict(**{'from': [3.0, -1.0, 0.0, 9.42477796076938, -0.5, 2.0], 'to': [1.0, 1.0, 0.0, -1.5707963267948966, 0.5, 8.5], 'x': [3.5, 0.5, 7.0, 3.9, 12.0, -4.0]}, ctor='new')],
+ 'C08': [dict(sign=[1, 1, 1, 1, 1, 1], dof=6, search='true'), dict(sign=[1, 1, 1, 1, 1, 1], dof=5, search='true')],
+ 'C09': [dict(wrapper=w, method=m, euler=[0.3, -0.5, 0.7], shift=[0.1, -0.2, 0.3]) for w in ('tool', 'base', 'frame') for m in ('forward', 'forward_with_joint_poses', 'inverse', 'inverse_continuing', 'inverse_continuing_5dof')],
+ 'C10': [dict(clause='tasks', tool=1, base=1, nenv=2), dict(clause='tasks', tool=0, base=1, nenv=1)],
+ 'C11': [dict(clause='entry')], 'C13': [dict(clause='extend')], 'C14': [dict(clause='offsets')], 'C15': [dict(clause='finite_difference')],
+ 'C16': [dict(driven=d, coupled=c, scaling=sc, method=m) for (d, c, sc) in ((1, 2, 0.7), (2, 1, -0.5), (0, 5, 1.5)) for m in ('forward', 'inverse', 'inverse_continuing_5dof')],
+ 'C17': [dict(clause='main', eulerB=[0.3, -0.5, 0.7], eulerM=[-1.1, 0.4, 2.0], shift=[0.5, -0.25, 3.0], p1=[10.0, -4.0, 2.0], l=0.8, u=0.3, w=0.6), dict(clause='mismatch_search'), dict(clause='forward_transformed')],
+ 'C18': [dict(**{'from': [3.0, 5.0, -1.0, -2.0, 6.0, 0.5], 'to': [1.0, -5.0, -2.0, 2.0, 0.2, 0.5]})],
+ 'C19': [dict()],
+}
+
+def run_battery(ck):
+    if os.environ.get('VERIF_NO_BATTERY'): return
+    for case in BATTERIES.get(ck.pid, []):
+        try: rp = ck.replay(case)
+        except Exception as e:
+            ck.notes.append(f'native cross-check could not run: {e!r}'); continue
+        n = 1
+        try: n = int(rp.get('native_cases', '1').split()[0])
+        except Exception: pass
+        ck.validated += n - 1      # replay() already counted one case
+        if rp.get('reproduced'):
+            path = os.path.join(VERIF, 'replays', f"{ck.pid}-battery-{hashlib.sha256(json.dumps(case, sort_keys=True, default=str).encode()).hexdigest()[:10]}.json")
+            json.dump(dict(property=ck.pid, what='native cross-check of the property on the real code failed', case=case, native=rp), open(path, 'w'), indent=1, default=str)
+            ck.violations.append(('native cross-check failed: ' + str(rp.get('diff', ''))[:200], path)); print(f'VIOLATION property={ck.pid} replay={path}', flush=True); print('  native cross-check: ' + str(rp.get('diff', ''))[:300], flush=True)
+
 def main(run_fn, pid):
     import argparse
     ap = argparse.ArgumentParser(); ap.add_argument('--tier', default=os.environ.get('VERIF_TIER', 'quick')); ap.add_argument('--seed', type=int, default=int(os.environ.get('VERIF_SEED', '0') or 0))
@@ -288,6 +323,7 @@ def main(run_fn, pid):
     ck = Check(pid, a.tier if a.tier in ('quick', 'thorough') else 'quick', a.seed)
     try:
         run_fn(ck)
+        run_battery(ck)
     except Inconclusive as e:
         ck.inconclusive.append(f'{type(e).__name__}: {e}')
     except Exception as e:
